@@ -364,6 +364,44 @@ def run(ctx):
                           "like NaN (skipped) instead of being reported as the largest finite double" % c.name,
                           "tested value comes out of clamp(-MAX, MAX)")
     ctx.floor("R03.8", "finiteness tests in the formatter", n8, 1)
+    # ------------------------------------------------------------------ R03.9 an integer observation is written as that integer
+    # "the same number": the payload of an unsigned observation reaches the output as an integer. Routed through a floating-point
+    # conversion on the way (to share the float path) it is rounded above 2^53 - `u64::MAX - 1` would come out as 18446744073709553000
+    n9 = 0
+    for b in F.all_bodies(CR):
+        if not c02.in_scope(b):
+            continue
+        sw_obs = [i for i in b.live_blocks() if b.term(i)["k"] == "switch" and any(
+            s_["k"] == "assign" and s_["rv"]["k"] == "discr" and s_["rv"].get("adt", "").endswith("value::Observation") for s_ in b.stmts(i))]
+        if not sw_obs:
+            continue
+        n9 += 1
+        lossy = []
+        for i in b.live_blocks():
+            for s_ in b.stmts(i):
+                if s_["k"] == "assign" and s_["rv"]["k"] == "cast" and str(s_["rv"].get("kind", "")).startswith("IntToFloat"):
+                    pl = op_place(s_["rv"]["op"])
+                    # the operand is (a copy of) the payload of the Unsigned variant of a matched observation
+                    seen_, work_ = set(), [pl["l"]] if pl else []
+                    src_unsigned = bool(pl) and any(e[0] == "dc" and "Unsigned" in str(e) for e in pl.get("p", []))
+                    while work_ and not src_unsigned:
+                        l_ = work_.pop()
+                        if l_ in seen_:
+                            continue
+                        seen_.add(l_)
+                        for kind_, bb_, j_, node_ in b.defs().get(l_, []):
+                            if kind_ == "assign" and node_["k"] == "assign" and node_["rv"]["k"] == "use":
+                                p2 = op_place(node_["rv"]["op"])
+                                if p2:
+                                    if any(e[0] == "dc" and "Unsigned" in str(e) for e in p2.get("p", [])):
+                                        src_unsigned = True
+                                    work_.append(p2["l"])
+                    if src_unsigned:
+                        lossy.append(i)
+        ctx.check(not lossy, "R03.9", fnkey(b) + "#unsigned-observation-written-as-integer", loc(b, lossy[0] if lossy else None),
+                  "the payload of an unsigned observation is converted to floating point before it is written: integers above 2^53 are rounded, the "
+                  "record no longer carries the number that was observed", "no int-to-float conversion of the Unsigned payload")
+    ctx.floor("R03.9", "bodies matching on the observation kinds in the formatter", n9, 1)
     # ------------------------------------------------------------------ R03.4 namespace replication siblings
     fin = [b for b in F.all_bodies(CR) if c02.in_scope(b) and b.def_ not in c02.send_bodies(F) and [c for c in b.calls() if c02.is_send(F, c)]]
     ctx.floor("R03.4", "record emission sites (per-set and global)", sum(len([c for c in b.calls() if c02.is_send(F, c)]) for b in fin), 2)
